@@ -1,7 +1,9 @@
 pub mod c01;
 pub mod c02;
 pub mod c03;
+pub mod c04;
 pub mod c05;
+pub mod c06;
 pub mod c07;
 pub mod c08;
 pub mod c09;
@@ -67,6 +69,7 @@ pub fn replay_file(path: &std::path::Path) -> i32 {
         "c11-scenario" => verdict("C11", path, c11::replay(case)),
         "c16-script" => verdict("C16", path, c16::replay(case)),
         "c17-schedule" => verdict("C17", path, c17::replay(case)),
+        "c04-case" => verdict("C04", path, c04::replay(case)),
         "c18-map" => verdict("C18", path, c18::replay(case)),
         "c05-case" => verdict("C05", path, c05::replay(case)),
         k if k.starts_with("c03-") => match c03::replay(case) {
